@@ -27,7 +27,8 @@ open PikaVerif PikaVerif.Config PikaVerif.Gen.Settings
     `rawValue` is the command-line value if the row's option was given; else the (first)
     `--pika:ini` definition of the key; else the value of the row's environment variable; else the
     built-in default. -/
-theorem C16_cli_over_env_over_default (vm : Vm) (s : Setting) (hs : s ∈ settings) :
+theorem C16_cli_over_env_over_default (vm : Vm) (s : Setting) (hs : s ∈ settings)
+    (hrt : cfgGet (vm.multi "pika:ini") s.key = none → vm.rt s.key = rtGet vm.env s.key) :
     (∀ o v, s.opt = some o → vm.opt o = some v → rawValue vm s = v) ∧
     (∀ v, s.opt.bind vm.opt = none → cfgGet (vm.multi "pika:ini") s.key = some v → rawValue vm s = v) ∧
     (∀ e v, s.opt.bind vm.opt = none → cfgGet (vm.multi "pika:ini") s.key = none → s.env = some e →
@@ -40,12 +41,21 @@ theorem C16_cli_over_env_over_default (vm : Vm) (s : Setting) (hs : s ∈ settin
   · intro v hc hi
     simp [rawValue, hc, hi]
   · intro e v hc hi he hv
-    simp [rawValue, hc, hi, rtGet_setting vm.env s hs, he, hv]
+    simp [rawValue, hc, hi, hrt hi, rtGet_setting vm.env s hs, he, hv]
   · intro hc hi he
-    simp only [rawValue, hc, hi, rtGet_setting vm.env s hs, Option.getD_none]
+    simp only [rawValue, hc, hi, hrt hi, rtGet_setting vm.env s hs, Option.getD_none]
     cases hse : s.env with
     | none => rfl
     | some e => simp [he e hse]
+
+/-- the hypothesis of `C16_cli_over_env_over_default` holds in both passes of `handle_arguments`:
+    in the preliminary pass (`mkVm`) and in the second pass (`Vm.second`, after the ini definitions
+    have been merged into `rtcfg_`) -/
+theorem C16_both_passes_read_environment (occ env : List (String × String)) (k : String) :
+    ((mkVm occ env).rt k = rtGet (mkVm occ env).env k) ∧
+    (cfgGet ((mkVm occ env).second.multi "pika:ini") k = none →
+      (mkVm occ env).second.rt k = rtGet (mkVm occ env).second.env k) :=
+  ⟨rfl, fun h => rt_second (mkVm occ env) k h⟩
 
 /-- `handle_scheduler` / `handle_affinity` (and every handler of the shape the translator calls
     "simple") return exactly the value selected by precedence. -/
@@ -116,7 +126,7 @@ theorem C16_numeric_settings_follow_precedence (vm : Vm) (s : Setting) (o : Stri
       subst h
       split at hdn
       · rename_i he
-        have : rtGet vm.env s.key = "" := by simpa using he
+        have : vm.rt s.key = "" := by simpa using he
         rw [this] at hn
         simp [parseNat] at hn
       · simp only [hn, pure_ok] at hdn
@@ -135,16 +145,16 @@ theorem C16_env_cores_is_dead (m : Machine) (vm vm' : Vm) (um : Bool) (t : Nat)
 theorem C16_resolved_value_is_used (m : Machine) (inp : Input) (rep : Report)
     (h : resolveM m inp = .ok rep) :
     ∃ (pre : List String) (p : Parsed) (r : Resolved), parseStage inp = .ok (pre, p) ∧
-      handleThreads m (mkVm p.occ inp.env) r.useMask = .ok r.threads ∧
+      handleThreads m (mkVm p.occ inp.env).second r.useMask = .ok r.threads ∧
       cfgLookup rep.cfg "pika.os_threads" = natStr r.threads ∧
       rep.workers = workersOf m (cfgLookup rep.cfg "pika.bind") r.threads ∧
-      cfgLookup rep.cfg "pika.scheduler" = handleStr (mkVm p.occ inp.env) "pika:scheduler" "pika.scheduler" ∧
+      cfgLookup rep.cfg "pika.scheduler" = handleStr (mkVm p.occ inp.env).second "pika:scheduler" "pika.scheduler" ∧
       schedulerPolicy (cfgLookup rep.cfg "pika.scheduler") = some rep.policy ∧
-      cfgLookup rep.cfg "pika.affinity" = handleStr (mkVm p.occ inp.env) "pika:affinity" "pika.affinity" ∧
-      handleCores m (mkVm p.occ inp.env) r.useMask r.threads = .ok r.cores ∧
+      cfgLookup rep.cfg "pika.affinity" = handleStr (mkVm p.occ inp.env).second "pika:affinity" "pika.affinity" ∧
+      handleCores m (mkVm p.occ inp.env).second r.useMask r.threads = .ok r.cores ∧
       cfgLookup rep.cfg "pika.cores" = natStr r.cores := by
   obtain ⟨pre, p, r, cfg, h1, h2, h3⟩ := resolveM_ok h
-  obtain ⟨r0, cfg0, ha, hi, hh, hc⟩ := configure_ok h2
+  obtain ⟨_, r0, cfg0, _, hi, ha, hh, hc⟩ := configure_ok h2
   obtain ⟨hcfg, hw, hpol, _, _, _⟩ := startStage_ok h3
   obtain ⟨hs, haf, ht, hco, _, _, _, _⟩ := handleArguments_ok ha
   obtain ⟨e1, e2, e3, e4, e5, _, _, _⟩ := handleHp_ok hh
@@ -170,7 +180,7 @@ theorem C16_plain_rows_end_to_end (m : Machine) (inp : Input) (rep : Report)
            | some e => ((mkVm p.occ inp.env).env e).getD s.dflt
            | none => s.dflt) := by
   obtain ⟨pre, p, r, cfg, h1, h2, h3⟩ := resolveM_ok h
-  obtain ⟨r0, cfg0, _, hi, _, hc⟩ := configure_ok h2
+  obtain ⟨_, r0, cfg0, _, hi, _, _, hc⟩ := configure_ok h2
   obtain ⟨hcfg, _⟩ := startStage_ok h3
   refine ⟨pre, p, h1, ?_⟩
   rw [hcfg, hc, writeBack_other _ _ _ hk, applyInis_lookup _ _ _ s.key hi, cfgLookup_baseCfg _ s hs,
@@ -267,7 +277,7 @@ theorem C16_invalid_thread_count_is_error (m : Machine) (vm : Vm) (um : Bool) (s
     `get_value<T>(key, default)` / `get_entry_as<T>(…, default)` - a malformed `PIKA_PU_STEP`,
     `PIKA_PU_OFFSET`, `PIKA_NUMA_SENSITIVE`, `pika.cores`, stack size … silently yields the default. -/
 theorem C16_invalid_is_error_partial (vm : Vm) (k : String) (d : Option Nat) (e : String)
-    (he : rtGet vm.env k = e) (hne : e ≠ "") (hbad : parseNat e = .bad)
+    (he : vm.rt k = e) (hne : e ≠ "") (hbad : parseNat e = .bad)
     (hini : cfgGet (vm.multi "pika:ini") k = none) : cfgRtNat vm k d = .ok d := by
   have : e.isEmpty = false := by
     cases h : e.isEmpty with
